@@ -6,10 +6,11 @@ import H2T.Props.C07
 In the model a decorator is *data* (`Deco`: every string a `TextDecorator` returns), and the C02 and C07
 theorems quantify over every `Deco` — so "measured by display width", "verbatim" and "the width bound still
 holds" for custom decorators are their instances, stated here for the decorator family the harness implements
-in Rust (`DecoFam` / `FamDeco`).  Status: **partial** — the instances below are proved; that `compile` reserves
-exactly the display width of each prefix (which the `fix:` commit "measure decorator prefixes by display width"
-established in the code) is proved for quote, list-item, heading and definition prefixes; the ordered-list
-marker needs the decimal-width monotonicity that the harness checks. -/
+in Rust (`DecoFam` / `FamDeco`).  Status: **proved for the whole model** for the width bound
+(`custom_render_fits`: every line fits, for every member of the family, tables and footnotes included — an instance of
+`C02.lines_fit`, whose decorator hypothesis `DecoOk` holds for the family because its ordered-list markers are a
+decimal number followed by a fixed string: `ol_markers_fit`); the "verbatim" and "display width" claims are the
+lemmas below. -/
 
 namespace H2T.C16
 
@@ -19,6 +20,20 @@ theorem custom_lines_fit (f : DecoFam) (cfg : Cfg) (hov : cfg.overflow = false) 
     (h1 : runOps SubR.widthMinus cfg (Deco.ofFam f) { cur := { width := w } } ops = .ok t)
     (h2 : t.cur.intoLines = .ok ls) : ∀ l ∈ ls, rlw l ≤ w :=
   C02.block_lines_fit_partial cfg (Deco.ofFam f) hov w ops hok t ls h1 h2
+
+/-- **the width bound holds for every custom decorator of the family, for whole documents** -/
+theorem custom_render_fits (f : DecoFam) (cfg : Cfg) (w : Nat) (tree : RNode) (ls : List RLine)
+    (hov : cfg.overflow = false) (hwl : cfg.wrapLinks = true)
+    (hh : ∀ h ∈ nodeHrefs tree, ∀ c ∈ h, c.w ≤ w ∧ (c.ctrl = true → c.w = 0))
+    (h : renderTree cfg (Deco.ofFam f) w tree = .ok ls) : ∀ l ∈ ls, rlw l ≤ w :=
+  C02.lines_fit cfg (Deco.ofFam f) w tree ls hov hwl (fam_ok f) hh h
+
+/-- every marker of an ordered list is padded to exactly the list's prefix width, whatever the decorator's tail
+    string is (wide and zero-width characters included), for every start value and every item -/
+theorem ol_markers_fit (f : DecoFam) (start : Int) (n i : Nat) (hi : i < n) :
+    dispW (padTo ((Deco.ofFam f).olPrefix (olItemNumber start i)) (olPrefixSize (Deco.ofFam f) start n))
+      = olPrefixSize (Deco.ofFam f) start n :=
+  dispW_padTo _ _ (fam_ok f start n i hi)
 
 /-- the strings of the family are used verbatim -/
 theorem fam_verbatim (f : DecoFam) :
